@@ -25,13 +25,14 @@ def bounds_for(tier, cap_mode):
 
 
 def _job(args):
-    cap_mode, handler, A, D, P, Q, pid, timeout_ms = args
+    cap_mode, handler, A, D, P, Q, pid, timeout_ms = args[:8]
+    order = args[8] if len(args) > 8 else 'ch'
     prog = _PROG
     t0 = time.time()
-    res = {'config': {'capacity': cap_mode, 'handler': handler, 'A': A, 'D': D, 'P': P, 'Q': Q}, 'findings': [], 'queries': [],
+    res = {'config': {'capacity': cap_mode, 'handler': handler, 'A': A, 'D': D, 'P': P, 'Q': Q, 'builder_order': order}, 'findings': [], 'queries': [],
            'error': None, 'programs': {}, 'vacuity': {}}
     try:
-        x = qm.Extraction(prog, cap_mode, handler, timeout_ms=60000)
+        x = qm.Extraction(prog, cap_mode, handler, timeout_ms=60000, order=order)
         for w in ('emit', 'clone', 'drop', 'worker', 'flush', 'stats'):
             x.run_program(w)
         res['programs'] = {k: {'paths': len(v.paths), 'nodes': len(v.nodes)} for k, v in x.programs.items()}
@@ -50,7 +51,7 @@ def _job(args):
             if not good:
                 static.append({'prop': 'C10', 'clause': 'channel-capacity', 'static': True,
                                'detail': 'the channel is created with capacity %r instead of the capacity given by the user' % (ca,),
-                               'scenario': {'kind': 'queue-capacity', 'probe': [1, 2, 3, 5, 6, 7]}})
+                               'scenario': {'kind': 'queue-capacity', 'probe': [1, 2, 3, 5, 6, 7], 'builder_order': order, 'handler': handler}})
         else:
             if x.init['cap_arg'] != 'unbounded':
                 static.append({'prop': 'C10', 'clause': 'channel-capacity', 'static': True, 'detail': 'no capacity configured but the channel is not unbounded'})
@@ -124,6 +125,7 @@ def _job(args):
                     steps, capv = pr.trace_of(m2)
                     which = [clause for clause, c in cl if z3.is_true(m2.eval(c, model_completion=True))]
                     sc = qm.scenario_from_trace(steps, capv, handler)
+                    sc['builder_order'] = order
                     res['findings'].append({'prop': prop, 'clause': ','.join(which), 'static': False, 'scenario': sc,
                                             'detail': 'schedule: ' + ' | '.join('%s:%s' % (s_['thread'], s_['op']) for s_ in steps)})
     except Unsupported as e:
@@ -159,7 +161,9 @@ def run(out, replay_path=None):
     for cap_mode in ('bounded', 'unbounded'):
         for handler in (True, False):
             for (A, D, P, Q) in bounds_for(out.tier, cap_mode):
-                jobs.append((cap_mode, handler, A, D, P, Q, pid, 3000000 if thorough else 600000))
+                jobs.append((cap_mode, handler, A, D, P, Q, pid, 3000000 if thorough else 600000, 'ch'))
+    # builder options given in the other order (configuration must not depend on it)
+    jobs.append(('bounded', True, 0, 0, 0, 1, pid, 60000, 'hc'))
     ctx = mp.get_context('fork')
     with ctx.Pool(min(len(jobs), max(1, (os.cpu_count() or 4) - 1))) as pool:
         results = pool.map(_job, jobs, chunksize=1)
